@@ -124,6 +124,81 @@ def f3? (a b c : String) : Option (Float × Float × Float) :=
   | some a, some b, some c => some (a, b, c)
   | _, _, _ => none
 
+/-! ### exploration ops (`x.*`): judged against tolerances / reference values carried by the op
+line; the model has no answer of its own (it echoes the implementation's) -/
+
+def echo : Option (List String) → String
+  | some t => " ".intercalate t
+  | none => "-"
+
+def isCdf (fn : String) : Bool := fn.startsWith "p"
+
+/-- the function name without its scenario label `@tag` -/
+def baseName (fn : String) : String := (fn.splitOn "@").headD fn
+
+def absF (x : Float) : Float := Float.abs x
+
+/-- two outcomes that must both be finite values -/
+def twoVals : Option (List String) → Option (Float × Float)
+  | some [a, b] =>
+    match out? a, out? b with
+    | some (.val x), some (.val y) => if x.isNaN || y.isNaN then none else some (x, y)
+    | _, _ => none
+  | _ => none
+
+def exploreStep (op : List String) (impl : Option (List String)) : Option (String × String) :=
+  let res (v : String) : Option (String × String) := some (echo impl, if impl.isNone then "-" else v)
+  match op with
+  | ["x.acc", clause, fn, tol, ref, _, _, _] =>
+    match float? tol, float? ref with
+    | some tol, some ref =>
+      (match impl with
+       | some [t] =>
+         match out? t with
+         | some (.val v) =>
+           if v.isNaN then res ("FAIL:search_" ++ clause ++ "_" ++ fn)
+           else if isCdf fn && !(0 ≤ v && v ≤ 1) then res ("FAIL:search_range_" ++ fn)
+           else if !(absF (v - ref) ≤ tol) then res ("FAIL:search_" ++ clause ++ "_" ++ fn)
+           else res "ok"
+         | some .exc => res ("FAIL:search_" ++ clause ++ "_" ++ fn)
+         | none => res "FAIL:parse"
+       | _ => res "FAIL:parse")
+    | _, _ => some ("bad-op", "-")
+  | ["x.lin2", clause, tol, c0, c1, _, _, _, _, c2, _, _, _, _] =>
+    match float? tol, float? c0, float? c1, float? c2 with
+    | some tol, some c0, some c1, some c2 =>
+      (match twoVals impl with
+       | some (v1, v2) =>
+         if absF (c1 * v1 + c2 * v2 - c0) ≤ tol then res "ok" else res ("FAIL:search_" ++ clause)
+       | none => res ("FAIL:search_" ++ clause))
+    | _, _, _, _ => some ("bad-op", "-")
+  | ["x.mono", fn, slack, _, _, _, _, _, _] =>
+    -- non-decreasing up to `slack` (relative to the value for the unbounded quantiles)
+    match float? slack with
+    | some slack =>
+      (match twoVals impl with
+       | some (v1, v2) =>
+         let sc : Float := if isCdf fn then 1 else (if absF v2 > 1 then absF v2 else 1)
+         if v1 ≤ v2 + slack * sc then res "ok" else res ("FAIL:search_monotone_" ++ fn)
+       | none => res ("FAIL:search_monotone_" ++ fn))
+    | none => some ("bad-op", "-")
+  | ["x.inv", fam, tol, p, _, _] =>
+    -- `pX (qX p) = p` to `tol`, or `qX p` is the best double: its neighbours' cdf values bracket `p`
+    match float? tol, float? p with
+    | some tol, some p =>
+      (match impl with
+       | some [q, b0, b1, b2] =>
+         match out? q, out? b0, out? b1, out? b2 with
+         | some (.val q), some (.val back), some (.val lo), some (.val hi) =>
+           if q.isNaN || back.isNaN then res ("FAIL:search_inverse_" ++ fam)
+           else if absF (back - p) ≤ tol then res "ok"
+           else if lo - tol ≤ p && p ≤ hi + tol then res "ok"
+           else res ("FAIL:search_inverse_" ++ fam)
+         | _, _, _, _ => res ("FAIL:search_inverse_" ++ fam)
+       | _ => res "FAIL:parse")
+    | _, _ => some ("bad-op", "-")
+  | _ => none
+
 def step (s : St) (op : List String) (impl : Option (List String)) : St × String × String :=
   let ans := impl.bind parseAnswer
   let es : List Entry := match ans with | some (_, es) => es | none => []
@@ -138,6 +213,9 @@ def step (s : St) (op : List String) (impl : Option (List String)) : St × Strin
     | some _, none => "FAIL:parse"
     | some _, some o => firstFail (f o)
   let bad : St × String × String := (s, "bad-op", "-")
+  match exploreStep op impl with
+  | some (m, v) => (s, m, v)
+  | none =>
   match op with
   | ["pnorm", a] =>
     match float? a with
